@@ -15,7 +15,10 @@
 //!             "imr0","isr0","mti","sti","strobe":bool,"win_lo","win_hi","steps",
 //!             "events":[[step_index,"kind",arg],...],
 //!             optional: "imem":[[offset,"hex"],...] initial internal-memory bytes, "kbirq":bool keyboard-interrupt
-//!             enable, "im_lo","im_hi" internal-memory window reported as "im" in every observation}
+//!             enable, "im_lo","im_hi" internal-memory window reported as "im" in every observation,
+//!             "calls":[n1,n2,...] (machine.run only) host batching: one `CoreRuntime::step(n)` call per entry, host
+//!             events only at the starts of calls; the per-instruction records are obtained by prefix re-execution
+//!             (see `run_parts`)}
 //! The observation record layout equals vp_harness/c12_pymachine.py.
 use crate::util::{err, get_bool, get_str, get_u32, get_u64};
 use sc62015_core::llama::opcodes::RegName;
@@ -271,7 +274,105 @@ fn split_one(sc: &Value) -> Value {
     json!({"ref": reference, "runs": runs, "err": null})
 }
 
+/// Apply the host events scheduled at one boundary; Ok(true) when at least one was applied.
+fn apply_events(m: &mut Machine, list: Option<&Vec<&Value>>) -> Result<bool, String> {
+    let Some(list) = list else {
+        return Ok(false);
+    };
+    for ev in list {
+        let kind = ev.get(1).and_then(|v| v.as_str()).unwrap_or("");
+        let arg = ev.get(2).cloned().unwrap_or(Value::Null);
+        m.event(kind, &arg)?;
+    }
+    Ok(!list.is_empty())
+}
+
+/// Batched host loop: the host calls `CoreRuntime::step(n)` once per entry of "calls" (host events only between
+/// calls).  The state after the j-th instruction of a call cannot be observed from outside, so it is obtained from
+/// an identical fresh machine driven through the same earlier calls and then `step(j)`: record k of the result is
+/// the observation after (calls 0..p-1 in full, then step(j)) with k = start(p) + j - 1.  Every record is the
+/// result of a real run that uses only public calls; the harness adds no semantics.  Same record layout as
+/// `run_one`, so the Python monitor reads it as the instruction-by-instruction trace of the batched run.
+fn run_parts(sc: &Value, parts: &[usize]) -> Value {
+    let steps = get_u64(sc, "steps", 0) as usize;
+    let fail = |e: String| json!({"obs0": null, "steps": [], "err": format!("setup: {e}")});
+    if parts.iter().any(|n| *n == 0) || parts.iter().sum::<usize>() != steps {
+        return fail(format!("calls {parts:?} do not partition {steps} steps"));
+    }
+    let mut starts: Vec<usize> = Vec::with_capacity(parts.len());
+    let mut acc = 0usize;
+    for n in parts {
+        starts.push(acc);
+        acc += n;
+    }
+    let mut evs: HashMap<usize, Vec<&Value>> = HashMap::new();
+    if let Some(list) = sc.get("events").and_then(|v| v.as_array()) {
+        for ev in list {
+            let k = ev.get(0).and_then(|v| v.as_u64()).unwrap_or(0) as usize;
+            if k < steps && !starts.contains(&k) {
+                return fail(format!("event at boundary {k} is not at the start of a step(n) call"));
+            }
+            evs.entry(k).or_default().push(ev);
+        }
+    }
+    let obs0 = match create(sc) {
+        Ok(m) => m.observe(),
+        Err(e) => return fail(e),
+    };
+    let mut out: Vec<Value> = Vec::with_capacity(steps);
+    let mut error: Value = Value::Null;
+    'outer: for (p, n_p) in parts.iter().enumerate() {
+        for j in 1..=*n_p {
+            let k = starts[p] + j - 1;
+            let mut m = match create(sc) {
+                Ok(m) => m,
+                Err(e) => return fail(e),
+            };
+            for q in 0..p {
+                if let Err(e) = apply_events(&mut m, evs.get(&starts[q])) {
+                    return fail(format!("event {e}"));
+                }
+                let r = std::panic::catch_unwind(std::panic::AssertUnwindSafe(|| m.step_n(parts[q])));
+                if !matches!(r, Ok(Ok(()))) {
+                    // an earlier call failed although its own prefix runs did not: not a deterministic machine
+                    return fail(format!("replay of call {q} (step({})) failed", parts[q]));
+                }
+            }
+            let mut rec = serde_json::Map::new();
+            match apply_events(&mut m, evs.get(&starts[p])) {
+                Ok(true) if j == 1 => {
+                    rec.insert("b".to_string(), m.observe());
+                }
+                Ok(_) => {}
+                Err(e) => return fail(format!("event {e}")),
+            }
+            let r = std::panic::catch_unwind(std::panic::AssertUnwindSafe(|| m.step_n(j)));
+            match r {
+                Ok(Ok(())) => {}
+                Ok(Err(e)) => {
+                    error = json!(format!("step {k}: {e}"));
+                    break 'outer;
+                }
+                Err(_) => {
+                    error = json!(format!("step {k}: panic"));
+                    break 'outer;
+                }
+            }
+            rec.insert("a".to_string(), m.observe());
+            out.push(Value::Object(rec));
+        }
+    }
+    json!({"obs0": obs0, "steps": out, "err": error, "calls": parts})
+}
+
 fn run_one(sc: &Value) -> Value {
+    if let Some(parts) = sc.get("calls").and_then(|v| v.as_array()) {
+        let parts: Vec<usize> = parts
+            .iter()
+            .map(|x| x.as_u64().unwrap_or(0) as usize)
+            .collect();
+        return run_parts(sc, &parts);
+    }
     let mut m = match create(sc) {
         Ok(m) => m,
         Err(e) => return json!({"obs0": null, "steps": [], "err": format!("setup: {e}")}),
